@@ -242,7 +242,7 @@ def run(chk):
         calls = []
         gen = _Obj(compute=lambda domain_obj, options: calls.append((domain_obj, options)))
         stub = real_self(S, domain_obj="MAN", orbit=_Obj(initial_state="X0", period="T"), period="T",
-                    eigendecomposition_options=_Obj(to_dict=lambda: {"a": 1}), generator=gen,
+                    eigendecomposition_options=_Obj(to_dict=lambda: {"a": 1}), eigendecomposition_config="CFG", generator=gen,
                     make_key=lambda *a: a, get_or_create=lambda k, f: f(),
                     compute_stm=lambda steps: ("xx", "tt", "PHI_T", "PHI"))
         r = S.compute_stability(stub)
